@@ -362,6 +362,8 @@ def _load_worker(job):
     d = tempfile.mkdtemp(prefix="verif-load-")
     out = []
     before_nodes = [[9, {"type": 17, "ver": "2.0", "bat": 1, "sn": "keep", "sv": "", "hb": 0, "sl": False, "rb": False, "ch": []}]]
+    # (k % 4 == 2: the registry holds text that an ASCII-escaped file can carry but UTF-8 cannot: a lone surrogate)
+    before_odd = [[9, {"type": 17, "ver": "2.0", "bat": 1, "sn": "keep\ud83d", "sv": "", "hb": 0, "sl": False, "rb": False, "ch": []}]]
     try:
         for k, (cls, content, tagged) in enumerate(items):
             path = os.path.join(d, f"f-{k}.json")
@@ -371,7 +373,7 @@ def _load_worker(job):
             gw = _new_gateway(path)
             seeded = cls in ("missing", "empty") and k % 2 == 0
             if seeded:
-                gwdriver.build_registry(gw, before_nodes)
+                gwdriver.build_registry(gw, before_odd if (cls == "missing" and k % 4 == 2) else before_nodes)
             before = proj(gw)["nodes"]
             via_context = (k % 3 == 0)
             try:
@@ -444,7 +446,7 @@ def check_c14() -> int:
         for raw in (b"[]", b"1", b"null", b"true", b"\"s\"", b"{}", b"1e400", b"{\"1\": 1e400}", b"NaN", b"{\"1\": NaN}", b"[" * 40 + b"]" * 40,
                     b"{\"a\": {\"node_id\": 1}}", b"{\"1\": {\"node_id\": 1, \"node_id\": 2}}"):
             items.append(("rawjson", raw, null))
-        for _ in range(4):
+        for _ in range(6):
             items.append(("empty", b"", null))
             items.append(("missing", None, null))
         jobs = [(items[i:i + 150], i) for i in range(0, len(items), 150)]
